@@ -32,10 +32,11 @@ func verifForceFull(mt *memTable) bool {
 // VerifMarkFull makes the current memtable report itself full, so that the next write rotates
 // it through the production path (ensureRoomForWrite in the writer goroutine).
 func (db *DB) VerifMarkFull() {
+	// Look at the memtable while holding the lock: once it has been rotated away it may be flushed
+	// and its skiplist released at any moment (callers run concurrently with writers).
 	db.lock.RLock()
-	mt := db.mt
-	db.lock.RUnlock()
-	if mt != nil && !mt.sl.Empty() {
+	defer db.lock.RUnlock()
+	if mt := db.mt; mt != nil && !mt.sl.Empty() {
 		verifForceFullMt.Store(mt)
 	}
 }
